@@ -627,6 +627,23 @@ def text_cases():
                 good_ents = [e for e in ents if e != again] if again != t else ents[:ents.index(t) + 1] + [e for e in ents[ents.index(t) + 1:] if e != t]
                 twin = head + "#[educe(%s)]\n" % ", ".join(good_ents) + body
                 out.append(("trait-twice/type/next-to-two-into", bad, twin))
+    # `()` is a target like any other: a unit variant has nothing to hand out, several undesignated fields are ambiguous
+    for bad_body, good_body in (("pub enum Ty {\n    Ping,\n    Pair(u8, u16),\n}\n", "pub enum Ty {\n    Pair((), u16),\n}\n"),
+                                ("pub enum Ty {\n    A((), ()),\n}\n", "pub enum Ty {\n    A((), u8),\n}\n"),
+                                ("pub struct Ty {\n    pub a: u8,\n    pub b: u16,\n}\n", "pub struct Ty {\n    pub a: (),\n    pub b: u16,\n}\n")):
+        out.append(("into-designation-missing/unit-target", head + "#[educe(Into(()))]\n" + bad_body, head + "#[educe(Into(()))]\n" + good_body))
+    # `bound` belongs to the type: on a variant it is refused, also when the whole value comes from a type-level expression
+    for t, lv in (("Default", "Default(expression = Ty::Number(7))"), ("Default", "Default"), ("Debug", "Debug")):
+        mark = "#[educe(Default)] " if lv == "Default" else ""
+        bad = head + "#[educe(%s)]\npub enum Ty<T> {\n    #[educe(%s(bound(T: ::core::marker::Copy)))]\n    %sNumber(u8),\n    Other(T),\n}\n" % (lv, t, mark)
+        twin = head + "#[educe(%s)]\npub enum Ty<T> {\n    %sNumber(u8),\n    Other(T),\n}\n" % (lv, mark)
+        out.append(("parameter-not-accepted/variant/bound", bad, twin))
+    # `unsafe` is the keyword, not an identifier spelled like it
+    for t in ("Debug", "PartialEq", "Hash"):
+        for form in ("%s(r#unsafe)", "%s(r#unsafe, )", "%s(unsafe unsafe)"):
+            bad = head + "#[educe(%s)]\npub union Ty {\n    pub a: u8,\n    pub b: u16,\n}\n" % (form % t)
+            twin = head + "#[educe(%s(unsafe))]\npub union Ty {\n    pub a: u8,\n    pub b: u16,\n}\n" % t
+            out.append(("union-without-unsafe/raw-identifier", bad, twin))
     return out
 
 
